@@ -60,7 +60,15 @@ class Checker:
             return False
         if not isinstance(value, str):
             return False
-        return (sum(map(ord, value)) + self.serial) % 2 == 0
+        verdict = (sum(map(ord, value)) + self.serial) % 2 == 0
+        # checkers in the wild answer with whatever is truthy or falsy (`re.match(...)`, a count, a string)
+        if self.mode == "hash_none":
+            return 1 if verdict else None
+        if self.mode == "hash_str":
+            return "yes" if verdict else ""
+        if self.mode == "hash_list":
+            return [value] if verdict else 0
+        return verdict
 
 
 WRAPPED_KINDS = ["pn_plain", "pn_allof", "pn_anyof", "pn_not_not", "pn_parsed_typelist", "allof_wrapped",
@@ -135,7 +143,7 @@ def histories(ctx, sut):
                 name = rng.choice(NAMES) + f"#{hist}.{len(trace)}"
             if rng.random() < 0.3:
                 serial += 1
-                checker = Checker(serial, log, rng.choice(["hash", "hash", "all", "none"]))
+                checker = Checker(serial, log, rng.choice(["hash", "hash", "all", "none", "hash_none", "hash_str", "hash_list"]))
                 format_checker.register(name)(checker)
                 if name in model:
                     stale.setdefault(name, []).append(model[name])
